@@ -100,6 +100,7 @@ Proof. exact conv_int_roundtrip_lemma. Qed.
 Print Assumptions conv_int_roundtrip.
 Theorem conv_int_text : forall z nl, parse_string (VInt z) nl = Ok (VStr (dec_text z)).
 Proof. exact conv_int_text_lemma. Qed.
+Print Assumptions conv_int_text.
 Theorem conv_bool_roundtrip : forall b nl,
   bind (parse_string (VBool b) nl) (fun t => parse_boolean t nl) = Ok (VBool b).
 Proof. exact conv_bool_roundtrip_lemma. Qed.
